@@ -16,13 +16,14 @@ LEVEL_TEXT = ('Static decision of the structural necessary conditions: on every 
               'is caught, Solve returns, and the global search does not resume; before the objective call of a '
               'regular iteration only queue contents, characteristics, the recalculation flag and the accuracy are '
               'written; every recording effect (counters, z/index, optimum, insertion) comes after the call; a trial is '
-              'completely recorded before the next objective call starts (first iteration included).')
+              'completely recorded before the next objective call starts (first iteration included); no routine of the evaluation chain is '
+              'handed as a callable value to an iterator-consuming callable (map, filter, key=...).')
 EXPLANATION = ('The solve driver is explored with the chain down to the Problem.Calculate call site inlined and an '
                'exceptional continuation forked at that call (exception type unknown: a handler narrower than '
                'BaseException lets a copy of the path propagate). Effects before the call are classified from the '
                'explicit stores on the path and from the points-to write sets of the opaque callees. Failure on the '
                'very first evaluation is excluded by the property and not constrained.')
-TRUSTED = ['CPython ast', 'iva engine']
+TRUSTED = ['CPython ast', 'iva engine', 'logging / print calls do not change program state']
 
 
 def chain_explorer(ctx: Ctx, **kw):
